@@ -78,6 +78,16 @@ func VerifC14_Order() {
 		versions[i] = a
 	}
 
+	// the alert may already sit in its group(s) from an earlier, quiet submission, so that
+	// every racing update goes into a registered group
+	if vfBool("groupExistsAlready") {
+		v0 := &types.Alert{}
+		v0.Labels = lbls
+		v0.StartsAt = t0.Add(-time.Hour)
+		v0.UpdatedAt = t0
+		v0.EndsAt = t0.Add(time.Hour)
+		d.routeAlert(d.ctx, v0)
+	}
 	{
 		ch := make(chan *provider.Alert, n)
 		done := make(chan struct{})
